@@ -105,9 +105,9 @@ def run_vm(code, env_seed, lits=(), funcs=None, meta=None, max_steps=60000, max_
     return dict(status=st, effects=vm.effects, events=vm.events, stat=vm.stat, steps=vm.steps, pc=vm.pc, env_reads=vm.env.reads, path=vm.path)
 
 
-def run_ref(src, env_seed, lits=(), max_steps=60000, max_effects=120, modules=None):
+def run_ref(src, env_seed, lits=(), max_steps=60000, max_effects=120, modules=None, perturb=False):
     try:
-        it = Interp(src, Env(env_seed, lits), max_steps=max_steps, max_effects=max_effects, modules=modules)
+        it = Interp(src, Env(env_seed, lits), max_steps=max_steps, max_effects=max_effects, modules=modules, perturb=perturb)
         st = it.run()
     except NotJudged as e:
         return dict(status="not-judged", reason=str(e), effects=[])
@@ -116,22 +116,98 @@ def run_ref(src, env_seed, lits=(), max_steps=60000, max_effects=120, modules=No
     return dict(status=st, effects=it.effects, stat=it.stat, steps=it.steps, main_end_effects=it.main_end_effects)
 
 
-def same_effect(a, b):
+def same_effect(a, b, tol=None):
     if len(a) != len(b):
         return False
-    for x, y in zip(a, b):
+    for k, (x, y) in enumerate(zip(a, b)):
         if not close(x, y):
+            if tol is not None and k < len(tol) and tol[k] and isinstance(x, (int, float)) and isinstance(y, (int, float)) and abs(x - y) <= tol[k]:
+                continue
             return False
     return True
 
 
-def compare_traces(a, b, name_a="vm", name_b="ref"):
+def conditioning_slack(ref, ref2, factor=8.0):
+    """ref: plain reference run, ref2: the run with one-ulp perturbed constant subexpressions (Interp(perturb=True)).
+    -> per effect index a list of absolute tolerances (factor x the distance of the two runs), for the prefix on
+    which both runs have the same shape; beyond that prefix the program's own branches depend on the last digit."""
+    out = []
+    blown = False
+    for e1, e2 in zip(ref.get("effects", []), ref2.get("effects", [])):
+        if len(e1) != len(e2) or blown:
+            break
+        tol = []
+        ok = True
+        for x, y in zip(e1, e2):
+            if isinstance(x, (int, float)) and isinstance(y, (int, float)) and not isinstance(x, bool):
+                if x == y or (x != x and y != y):
+                    tol.append(0.0)
+                elif x != x or y != y or abs(x) == float("inf") or abs(y) == float("inf"):
+                    ok = False
+                    break
+                else:
+                    tol.append(factor * abs(x - y))
+                    if abs(x - y) > 1e-11 * max(abs(x), abs(y)):
+                        blown = True  # one ulp has grown 10^4-fold: nothing after this effect is stable
+            elif x != y:
+                ok = False
+                break
+            else:
+                tol.append(0.0)
+        if not ok:
+            break
+        out.append(tol)
+    parted = len(out) < max(len(ref.get("effects", [])), len(ref2.get("effects", []))) or ref.get("status") != ref2.get("status")
+    return out, parted
+
+
+def compare_conditioned(a, b, name_a, name_b, ref, make_ref2):
+    """compare_traces; when the traces differ in a numeric value, ask how well-conditioned the SOURCE is there:
+    make_ref2() runs the reference interpreter with one-ulp perturbed constant subexpressions, and the distance
+    between it and the plain reference run `ref` (x8) becomes extra tolerance.  -> (verdict, info, conditioned)"""
+    verdict, info = compare_traces(a, b, name_a, name_b)
+    if verdict != "differ":
+        return verdict, info, False
+    if callable(ref):
+        try:
+            ref = ref()
+        except Exception:
+            ref = None
+    if ref is None or ref.get("status") == "not-judged":
+        return verdict, info, False
+    try:
+        ref2 = make_ref2()
+    except Exception:
+        return verdict, info, False
+    if ref2.get("status") == "not-judged":
+        return verdict, info, False
+    slack = conditioning_slack(ref, ref2)
+    if not slack[1] and not any(t for tol in slack[0] for t in tol):
+        return verdict, info, False  # the perturbation changes nothing: the difference has another cause
+    v2, i2 = compare_traces(a, b, name_a, name_b, slack=slack)
+    return v2, i2, v2 != "differ"
+
+
+def compare_traces(a, b, name_a="vm", name_b="ref", slack=None):
+    if slack is None:
+        return _compare_traces(a, b, name_a, name_b, None)
+    tol, parted = slack
+    verdict, info = _compare_traces(a, b, name_a, name_b, tol)
+    if verdict == "differ" and parted and info.get("index", 0) >= len(tol):
+        # the plain and the perturbed run of the SOURCE part ways before this point
+        return "truncated", dict(kind="ill-conditioned", index=info.get("index"), was=info.get("kind"))
+    return verdict, info
+
+
+def _compare_traces(a, b, name_a, name_b, slack):
     """a, b: dict(status, effects).  -> (verdict, info)
-    verdict: 'same' | 'truncated' (equal on the common prefix, one side hit a cap) | 'differ' (info = witness)"""
+    verdict: 'same' | 'truncated' (equal on the common prefix, one side hit a cap) | 'differ' (info = witness)
+    slack (from conditioning_slack): extra absolute tolerance per effect; a difference beyond the prefix that the
+    slack covers is 'truncated' with kind 'ill-conditioned' (the source itself is not stable there)."""
     ea, eb = a["effects"], b["effects"]
     n = min(len(ea), len(eb))
     for i in range(n):
-        if not same_effect(ea[i], eb[i]):
+        if not same_effect(ea[i], eb[i], slack[i] if slack is not None and i < len(slack) else None):
             return "differ", dict(kind="effect-differs", index=i, **{name_a: ea[max(0, i - 2) : i + 2], name_b: eb[max(0, i - 2) : i + 2]})
     sa, sb = a["status"], b["status"]
     done = ("end", "hcf", "machine-error")
